@@ -19,7 +19,7 @@ theorem userKey_base {k : Nat × Nat} (hu : UserKey k) : baseTag k.1 = k.1 := ba
 theorem open_handle_ok (w : World) (hw : WFW w) (h fi : Nat) (hnone : w.acc h = none) (hfi : fi < w.files.length)
     (a : Acc) (haf : a.file = fi) (hposn : a.posn = 0)
     (hH : (w.file fi).live a.slot ∧ UserKey ((w.file fi).keyOf a.slot) ∧ a.special = isSpecial ((w.file fi).dd a.slot).tag ∧
-      (a.special = false → (a.newElem = true ↔ ((w.file fi).dd a.slot).ext = none)) ∧ (a.special = true → a.newElem = false) ∧
+      (a.special = false → ((w.file fi).dd a.slot).ext = none → a.newElem = true) ∧ (a.special = true → a.newElem = false) ∧
       (1 ≤ a.blockSize ∧ 1 ≤ a.numBlocks)) :
     let w' := (w.setFile fi { w.file fi with attach := (w.file fi).attach + 1 }).setAcc h a
     WFW w' ∧ ((abs w).setHnd h (some { file := fi, key := (w.file fi).keyOf a.slot, pos := 0 })).Eqv (abs w') := by
@@ -27,7 +27,7 @@ theorem open_handle_ok (w : World) (hw : WFW w) (h fi : Nat) (hnone : w.acc h = 
   have hww : WFW w' := by
     apply hw.update fi hfi _ ((hw.files fi).attach _) (coh_attach (hw.coh fi) _) h a haf
     · exact hH
-    · intro _ _ _ _ _; exact ⟨rfl, rfl, Iff.rfl⟩
+    · intro _ _ _ _ _; exact ⟨rfl, rfl, id⟩
   refine ⟨hww, ?_⟩
   have := abs_update hw fi hfi { w.file fi with attach := (w.file fi).attach + 1 } ((hw.files fi).attach _).toWFF h a haf
     ((w.file fi).keyOf a.slot) ((w.file fi).elem ((w.file fi).keyOf a.slot).1 ((w.file fi).keyOf a.slot).2) rfl rfl
@@ -37,7 +37,7 @@ theorem open_handle_ok (w : World) (hw : WFW w) (h fi : Nat) (hnone : w.acc h = 
 
 theorem stepOK_startaccess (w : World) (hw : WFW w) (h fi tag ref : Nat) (wr app : Bool)
     (hsafe : OpSafe w (.startaccess h fi tag ref wr app)) : StepOK w (.startaccess h fi tag ref wr app) := by
-  obtain ⟨hnone, hu, _⟩ := hsafe
+  obtain ⟨hnone, hu⟩ := hsafe
   by_cases hop' : (w.file fi).isOpen = false
   · exact stepOK_fail_same w hw _ (by simp only [step, hstartaccess]; rw [if_pos (by simp [hop'])])
   have hop : (w.file fi).isOpen = true := by simpa using hop'
@@ -89,13 +89,13 @@ theorem stepOK_startaccess (w : World) (hw : WFW w) (h fi tag ref : Nat) (wr app
       · refine ⟨(hlive1 i).mpr (Or.inr rfl), ?_, ?_, ?_, fun hh => absurd (show false = true from hh) (by decide), default_blk⟩
         · show UserKey (f1.keyOf i); rw [hkey1]; exact hu
         · show false = isSpecial (f1.dd i).tag; rw [C.dd_new]; exact hu.1.symm
-        · intro _; show true = true ↔ (f1.dd i).ext = none; rw [C.dd_new]; simp
+        · intro _ _; rfl
       · intro h' a'' _ ha'' ef
         have hl := (hw.handles h' a'' ha'').live
         rw [ef] at hl
         have hne : a''.slot ≠ i := fun e => hnl (e ▸ hl)
-        show (f1.dd a''.slot).tag = _ ∧ (f1.dd a''.slot).ref = _ ∧ ((f1.dd a''.slot).ext = none ↔ _)
-        rw [C.dd_keep _ hne]; exact ⟨rfl, rfl, Iff.rfl⟩
+        show (f1.dd a''.slot).tag = _ ∧ (f1.dd a''.slot).ref = _ ∧ ((f1.dd a''.slot).ext = none → _)
+        rw [C.dd_keep _ hne]; exact ⟨rfl, rfl, id⟩
     refine ⟨hww, ((abs w).setElem fi (tag, ref) (some none)).setHnd h (some { file := fi, key := (tag, ref), pos := 0 }), ?_, ?_⟩
     · have hel : (abs w).elem fi (tag, ref) = none := by rw [abs_elem]; unfold File.elem; rw [hsel]; rfl
       simp only [specStep, hbase, hel, if_true]
@@ -166,9 +166,10 @@ theorem stepOK_startaccess (w : World) (hw : WFW w) (h fi tag ref : Nat) (wr app
         rw [if_neg hsp]
       obtain ⟨hww, heqv⟩ := open_handle_ok w hw h fi hnone hfi
         { file := fi, slot := i, appendable := app, newElem := ((w.file fi).dd i).ext.isNone, canWrite := wr }
-        rfl rfl ⟨hk.1, by rw [hkey]; exact hu, hsp0.symm, fun _ => by
-          show ((w.file fi).dd i).ext.isNone = true ↔ _
-          cases ((w.file fi).dd i).ext <;> simp, fun hh => absurd (show false = true from hh) (by decide), default_blk⟩
+        rfl rfl ⟨hk.1, by rw [hkey]; exact hu, hsp0.symm, fun _ hx => by
+          show ((w.file fi).dd i).ext.isNone = true
+          have hx' : ((w.file fi).dd i).ext = none := hx
+          rw [hx']; rfl, fun hh => absurd (show false = true from hh) (by decide), default_blk⟩
       unfold StepOK
       rw [hstep]
       refine ⟨hww, _, ?_, by rw [hkey] at heqv; exact heqv⟩
